@@ -65,7 +65,7 @@ def meta_for(tier):
     return m
 
 
-def run_job(job):
+def run_job(job, check_id=None, only=None):
     kind = job["kind"]
     caps = {}
     if kind == "bisect":
@@ -184,7 +184,9 @@ def run_job(job):
     def on_path(pr):
         if pr.outcome == "exc":
             pr.obligations = [("no exception (%s: %s)" % (type(pr.exc).__name__, str(pr.exc)[:100]), z3.BoolVal(False), {})]
-        runner.discharge(ID, job, pr, out, kind)
+        if only is not None:
+            pr.obligations = [o for o in pr.obligations if only(o[0])]
+        runner.discharge(check_id or ID, job, pr, out, kind)
 
     eng.explore(fn, on_path, shard=tuple(job["shard"]) if job.get("shard") else None)
     out.d["stats"] = dict(eng.stats)
